@@ -316,6 +316,9 @@ pub trait Deq<T>: Any {
     fn clone_from_dyn(&mut self, other: &dyn Deq<T>);
     fn eq_dyn(&self, other: &dyn Deq<T>) -> bool;
     fn eq_slice(&self, other: &[T]) -> bool;
+    /// `==` against every partner type the crate implements it for: [U], &[U], &mut [U] and (for up to 8 elements)
+    /// [U; M], &[U; M], &mut [U; M]; the vector is handed back so that the caller destroys it
+    fn eq_partners(&self, other: Vec<T>) -> (Vec<(&'static str, bool)>, Vec<T>);
     fn partial_cmp_dyn(&self, other: &dyn Deq<T>) -> Option<Ordering>;
     /// `==` / `partial_cmp` against a buffer of ANY capacity in 0..=8
     fn eq_any(&self, other: &dyn Deq<T>) -> bool;
@@ -510,6 +513,25 @@ where
     }
     fn eq_slice(&self, other: &[T]) -> bool {
         self == other
+    }
+    fn eq_partners(&self, mut other: Vec<T>) -> (Vec<(&'static str, bool)>, Vec<T>) {
+        let mut r = vec![("[U]", *self == other[..]), ("&[U]", *self == &other[..]), ("&mut [U]", *self == &mut other[..])];
+        macro_rules! arrays {
+            ($($m:literal)*) => {
+                match other.len() {
+                    $($m => {
+                        let mut arr: [T; $m] = match other.try_into() { Ok(a) => a, Err(_) => unreachable!() };
+                        r.push(("[U; M]", *self == arr));
+                        r.push(("&[U; M]", *self == &arr));
+                        r.push(("&mut [U; M]", *self == &mut arr));
+                        other = Vec::from(arr);
+                    })*
+                    _ => {}
+                }
+            };
+        }
+        arrays!(0 1 2 3 4 5 6 7 8);
+        (r, other)
     }
     fn partial_cmp_dyn(&self, other: &dyn Deq<T>) -> Option<Ordering> {
         let o = other.as_any().downcast_ref::<Self>().expect("cmp: same capacity");
